@@ -37,6 +37,8 @@ impl Family for C09 {
       ("unsub_after_probes", Json::Int(if rng.below(3) == 0 { rng.below(12) as i64 } else { -1 })),
       ("cb_probes", Json::Int(rng.below(3) as i64)),
       ("resubscribe", Json::Bool(rng.below(4) == 0)),
+      // virtual-time pauses of a threaded source before each step (an idle scheduler must not lose events)
+      ("gaps_ms", Json::Arr((0..script.len()).map(|_| Json::Int(if rng.below(5) == 0 { *rng.pick(&[50i64, 1200, 2500]) } else { 0 })).collect())),
     ])
   }
   fn exec(&self, w: &Json, cfg: RunCfg) -> RunOut {
@@ -66,6 +68,7 @@ impl Family for C09 {
       return RunOut::invalid();
     }
     let unsub_after = w.i("unsub_after_probes");
+    let gaps_ns: Vec<u64> = w.a("gaps_ms").iter().map(|x| x.as_i64().unwrap_or(0).clamp(0, 10_000) as u64 * 1_000_000).collect();
     let rec = Recorder::with_probes(w.i("cb_probes").clamp(0, 3) as u32);
     let rec_b = Recorder::with_probes(w.i("cb_probes").clamp(0, 3) as u32);
     let resub = w.b("resubscribe");
@@ -77,8 +80,8 @@ impl Family for C09 {
       let handles = Arc::new(Mutex::new(Vec::new()));
       let mut o = match sm.as_str() {
         "cold" => cold_source(vec![sc], sl, None, false),
-        "threaded" => threaded_source("source", sc, sl, false, vec![], handles.clone()),
-        _ => threaded_source("source", sc, sl, true, vec![], handles.clone()),
+        "threaded" => threaded_source("source", sc, sl, false, gaps_ns.clone(), handles.clone()),
+        _ => threaded_source("source", sc, sl, true, gaps_ns.clone(), handles.clone()),
       };
       for st in &shape2 {
         o = match st.as_str() {
